@@ -13,6 +13,9 @@ def WFOp : Op → Prop
   | .new hole size => hole.limit ≤ size
   | _ => True
 
+instance (op : Op) : Decidable (WFOp op) := by
+  cases op <;> unfold WFOp <;> infer_instance
+
 structure Inv2 (st : State) : Prop where
   inv : Inv st
   files : ∀ (i : Nat) (f : File), st.files[i]? = some f → FileOK st.cfg.ss st.dev f
